@@ -595,6 +595,16 @@ def r_lock_guards(ctx):
             exp = _expiry_compares(P, m, unlock)
             ctx.tick()
             dom = any(_dominated_by_expiry(ex.cfg, n.id, cmpn) for cmpn, op, flipped in exp)
+            if not dom:
+                # nothing is discarded where the entry read from the table is known to be absent
+                ent_ = None
+                for d_ in U.walk_no_nested(m.node):
+                    if isinstance(d_, ast.Assign) and isinstance(d_.targets[0], ast.Name) and isinstance(d_.value, ast.Call) and isinstance(d_.value.func, ast.Attribute) \
+                            and d_.value.func.attr == 'get' and P.self_attr(d_.value.func.value, m.self_name) == table:
+                        ent_ = d_.targets[0].id
+                fss_ = res.facts_at(n.id)
+                if ent_ and fss_ and all(oracle.entails(fs_, ('none', ex.tb.term(ast.Name(id=ent_, ctx=ast.Load())), True)) for fs_ in fss_):
+                    dom = True
             if dom:
                 ctx.ok(inst, m.loc(d), 'dominated by the true edge of the expiry test')
             else:
@@ -986,3 +996,95 @@ def r_heap_discipline(ctx):
                               'items out of order' % unparse(a.node)[:60], instance=inst)
     ctx.require(n_cls >= 1, 'no heapq-managed list found in batteries')
     ctx.expect_min(1)
+
+
+@rule('R-reset-replaces', 'reset(newData) of a container battery replaces the container by the given one (an assignment from the '
+                          'parameter), it does not merge into the old contents')
+def r_reset_replaces(ctx):
+    P = ctx.P
+    n = 0
+    for cn in BATTERIES:
+        if not P.has_cls(cn):
+            continue
+        cls = P.cls(cn)
+        attr, kind = container_kind(P, cls)
+        m = cls.methods.get('reset')
+        if m is None or attr is None or len(m.params) < 2:
+            continue
+        n += 1
+        par = m.params[1]
+        inst = '%s.reset replaces the %s' % (cn, kind)
+        ctx.tick()
+        assigns = [st for st, k in U.assigns_to_attr(P, m, attr) if k == 'assign' and any(isinstance(x, ast.Name) and x.id == par for x in ast.walk(st.value))]
+        cfg = U.explorer(ctx, m).cfg
+        ids = [U.node_containing(cfg, st).id for st in assigns]
+        if assigns and cfg.exit.id not in cfg.reachable_from(cfg.entry.id, avoid=ids, follow_exc=False):
+            ctx.ok(inst, m.loc(assigns[0]), unparse(assigns[0]))
+        else:
+            ctx.violation('%s.reset:does-not-replace' % cn, m.loc(), 'reset(%s) does not assign self.%s from its argument on every path: elements of the old container that are not in the '
+                          'new data survive (every replica agrees on the wrong contents, so only a comparison with the builtin shows it)' % (par, attr), instance=inst)
+    ctx.require(n >= 2, 'container batteries with reset() not found')
+    ctx.expect_min(2)
+
+
+@rule('R-lock-client-identity', 'the lock manager hands the current time to every lock-table operation, and its default client '
+                                'id distinguishes processes as well as objects')
+def r_lock_client_identity(ctx):
+    P = ctx.P
+    c, table, unlock = lock_impl(ctx)
+    mgr = P.cls('ReplLockManager')
+    impl_attr = None
+    init = mgr.methods.get('__init__')
+    for n in ast.walk(init.node):
+        if isinstance(n, ast.Assign) and isinstance(n.value, ast.Call) and isinstance(n.value.func, ast.Name) and n.value.func.id == c.name:
+            impl_attr = P.self_attr(n.targets[0], init.self_name)
+    ctx.require(impl_attr, 'ReplLockManager does not create its implementation object')
+    n_calls = 0
+    for m in P.methods_of(mgr):
+        for call in P.calls_in(m, include_nested=True):
+            if not (isinstance(call.func, ast.Attribute) and P.self_attr(call.func.value, m.self_name) == impl_attr):
+                continue
+            tgt = c.methods.get(call.func.attr)
+            if tgt is None:
+                continue
+            # the parameter of the implementation that carries the time: the one compared with the stored stamp (named by position)
+            tpos = [i for i, p_ in enumerate(tgt.params[1:]) if 'time' in p_.lower()]
+            if not tpos or tpos[0] >= len(call.args):
+                continue
+            n_calls += 1
+            a = call.args[tpos[0]]
+            inst = '%s: `%s` passes the current time' % (m.qualname, unparse(call)[:60])
+            ctx.tick()
+            v = a
+            if isinstance(a, ast.Name):
+                # a local (also of the enclosing function) assigned from the clock
+                g = m
+                while g is not None and isinstance(v, ast.Name):
+                    vv = U.single_assign_value(g, a.id)
+                    if vv is not None:
+                        v = vv
+                        break
+                    g = g.parent
+            if U.is_clock_call(v):
+                ctx.ok(inst, m.loc(call), unparse(a))
+            else:
+                ctx.violation('%s:stale-time-to-lock-table' % m.qualname, m.loc(call),
+                              '`%s` is handed to %s.%s as the current time, but it is not a clock read: expiry is then judged against an old instant (a holder cut off from the '
+                              'cluster keeps seeing its lock as valid after others were given it)' % (unparse(a), c.name, call.func.attr), instance=inst)
+    ctx.require(n_calls >= 3, 'calls of the lock implementation with a time argument not found')
+    # default client id
+    inst = 'default client id contains the process id and the object id'
+    ctx.tick()
+    ids = [st for st in ast.walk(init.node) if isinstance(st, ast.Assign) and isinstance(st.targets[0], ast.Name) and st.targets[0].id in init.params
+           and any(isinstance(x, ast.Call) for x in ast.walk(st.value))]
+    if ids:
+        names = set(unparse(x.func).split('.')[-1] for x in ast.walk(ids[0].value) if isinstance(x, ast.Call))
+        if {'getpid', 'id'} <= names:
+            ctx.ok(inst, init.loc(ids[0]), unparse(ids[0].value)[:70])
+        else:
+            ctx.violation('ReplLockManager.__init__:client-id-not-unique', init.loc(ids[0]),
+                          'the default client id `%s` lacks %s: two clients on one host can get the same id, and acquire() treats the second as the re-entrant holder'
+                          % (unparse(ids[0].value)[:70], ' and '.join(sorted({'getpid', 'id'} - names))), instance=inst)
+    else:
+        ctx.unproven(inst, init.loc(), 'default id construction not recognised')
+    ctx.expect_min(3)
